@@ -3,6 +3,7 @@ package main
 import (
 	"crypto/sha256"
 	"fmt"
+	"go/types"
 	"os"
 	"regexp"
 	"sort"
@@ -74,6 +75,7 @@ func (c *FnCtx) finalize() {
 	}
 	c.finalized = true
 	defer c.addLemmas()
+	c.addSpecFrames()
 	env := &specEnv{c: c, vars: map[string]sv{}, heap: c.entry, pkg: c.pkgTypes()}
 	// evaluate every axiom whose spec functions are (transitively) used
 	done := map[*Axiom]bool{}
@@ -171,6 +173,130 @@ func (c *FnCtx) finalize() {
 
 var qvarRe = regexp.MustCompile(`!q[0-9]+`)
 
+// addSpecFrames: a heap-reading spec function depends only on its arguments and on what is reachable
+// from them. For two snapshots H1, H2 of the heaps it reads: if every object that existed at H1
+// (references up to the allocation watermark W1 recorded with H1) has the same content in H2, then the
+// function has the same value in both for all arguments that existed at H1 (their own references are at
+// most W1; everything reachable from them existed by then). Stated per ordered pair of snapshots and per
+// function, with the agreement hypothesis as a propositional constant whose defining implication is
+// skolemised (so the solver refutes a disagreement at one witness reference instead of proving a
+// universal statement under a quantifier).
+func (c *FnCtx) addSpecFrames() {
+	if c.con == nil || !c.con.Flags["specframes"] {
+		return // only on request: the extra quantified facts are not needed by the proofs made so far
+	}
+	if len(c.readSnapOrder) < 2 || len(c.readSnapOrder) > 8 {
+		return
+	}
+	names := func(key string) string {
+		var hs []string
+		for h := range c.readSnaps[key] {
+			if h != "ALLOC" {
+				hs = append(hs, h)
+			}
+		}
+		sort.Strings(hs)
+		return strings.Join(hs, ",")
+	}
+	var fns []string
+	for n := range c.usedSpecFuncs {
+		if sf := c.eng.specs.Funcs[n]; sf != nil && sf.Body == nil && len(sf.Reads) > 0 {
+			fns = append(fns, n)
+		}
+	}
+	sort.Strings(fns)
+	cnt := 0
+	for _, k1 := range c.readSnapOrder {
+		for _, k2 := range c.readSnapOrder {
+			if k1 == k2 || names(k1) != names(k2) {
+				continue
+			}
+			s1, s2 := c.readSnaps[k1], c.readSnaps[k2]
+			w1 := s1["ALLOC"]
+			if w1 == "" {
+				continue
+			}
+			var disagree []string
+			ok := true
+			var hs []string
+			for h := range s1 {
+				if h != "ALLOC" {
+					hs = append(hs, h)
+				}
+			}
+			sort.Strings(hs)
+			for _, h := range hs {
+				if s1[h] == s2[h] {
+					continue
+				}
+				if !strings.HasPrefix(c.heapSort[h], "(Array Int ") {
+					ok = false
+					break
+				}
+				cnt++
+				r := fmt.Sprintf("r!sfw%d", cnt)
+				c.declare(r, "Int")
+				disagree = append(disagree, and(le(r, w1), not(eq(sel(s2[h], r), sel(s1[h], r)))))
+			}
+			if !ok || len(disagree) == 0 {
+				continue
+			}
+			cnt++
+			ag := fmt.Sprintf("agree!sf%d", cnt)
+			c.declare(ag, "Bool")
+			for _, fn := range fns {
+				sf := c.eng.specs.Funcs[fn]
+				rs := append([]string{}, sf.Reads...)
+				sort.Strings(rs)
+				if strings.Join(rs, ",") != names(k1) {
+					continue
+				}
+				var vars [][2]string
+				var guards, args []string
+				pk := c.pkgTypes()
+				bad := false
+				for i, p := range sf.Params {
+					pty, err := c.eng.tryResolveType(pk, p.Type)
+					if err != nil {
+						if p2 := c.eng.pkgs[gojqPath]; p2 != nil {
+							pty, err = c.eng.tryResolveType(p2.Pkg, p.Type)
+						}
+					}
+					if err != nil {
+						bad = true
+						break
+					}
+					v := fmt.Sprintf("x%d!qf%d", i, cnt)
+					srt := c.sorts.sortOf(pty)
+					vars = append(vars, [2]string{v, srt})
+					args = append(args, v)
+					switch types.Unalias(pty).Underlying().(type) {
+					case *types.Slice:
+						guards = append(guards, app("validSlice", v), le(app("s-arr", v), w1))
+					case *types.Interface:
+						guards = append(guards, app("validVal", v), app("valRefsLE", v, w1))
+					case *types.Pointer, *types.Map:
+						guards = append(guards, le("0", v), le(v, w1))
+					}
+				}
+				if bad {
+					continue
+				}
+				h1 := append([]string{}, args...)
+				h2 := append([]string{}, args...)
+				for _, h := range sf.Reads {
+					h1 = append(h1, s1[h])
+					h2 = append(h2, s2[h])
+				}
+				t1, t2 := app("sf_"+fn, h1...), app("sf_"+fn, h2...)
+				body := implies(and(append([]string{ag}, guards...)...), eq(t1, t2))
+				text := and(or(append(append([]string{}, disagree...), ag)...), forall(vars, body, t2))
+				c.axioms = append(c.axioms, axiomInst{name: "frame:" + fn, syms: []string{"sf_" + fn}, text: text})
+			}
+		}
+	}
+}
+
 // addLemmas: proved lemmas whose spec functions are used become quantified facts.
 func (c *FnCtx) addLemmas() {
 	for _, lem := range c.eng.specs.Lemmas {
@@ -178,6 +304,13 @@ func (c *FnCtx) addLemmas() {
 			continue // a lemma is not available in its own proof (only its induction hypothesis)
 		}
 		if c.using != nil && !c.using[lem.Name] {
+			continue
+		}
+		if (len(lem.Triggers) == 0 || len(lem.General) > 0) && (c.using == nil || !c.using[lem.Name]) {
+			// a lemma without a trigger (or whose trigger only serves its generalised induction hypothesis)
+			// is a proof step, available through an explicit `use` (or a
+			// `using` list) only: as a quantified fact without a pattern it would burden every proof
+			// that happens to mention one of its spec functions
 			continue
 		}
 		names := map[string]bool{}
